@@ -437,7 +437,7 @@ type deepL struct {
 	L []deepL `thrift:"1"`
 }
 
-var ladderDepths = []int{100, 9999, 10000, 10001, 100000, 1000000, 4000000}
+var ladderDepths = []int{100, 1000, 9999, 10000, 10001, 100000, 1000000, 4000000}
 
 func depthLadder(c *explore.Ctx)      { depthLadderBody(c, false) }
 func depthLadderTyped(c *explore.Ctx) { depthLadderBody(c, true) }
@@ -516,12 +516,42 @@ func depthLadderBody(c *explore.Ctx, typed bool) {
 			}
 		}
 	}
+	// typed shapes are also sent complete (last choice, so that the rung stays the third one)
+	complete := typed && c.Choose(2) == 1
+	if complete {
+		name += " (complete)"
+		if shape == 5 { // the innermost list is empty
+			if bin {
+				in = append(in, 12, 0, 0, 0, 0)
+			} else {
+				in = append(in, 0x0c)
+			}
+		}
+		in = append(in, make([]byte, depth+1)...) // one stop field per struct
+	}
 	var out deepT
 	var err error
 	if pv, ps := explore.Catch(func() { err = thrift.Unmarshal(impl(p), in, &out) }); pv != nil {
 		c.Fail("depth:panic:"+ps+":"+explore.PanicClass(pv), "Unmarshal panics on %s nested %d deep over %s: %v", name, depth, p, pv)
-	} else if err == nil {
+	} else if err == nil && !complete {
 		c.Fail("depth:accepted-truncated:"+proto3(p), "Unmarshal accepts %s nested %d deep over %s although the input stops inside the value", name, depth, p)
+	} else if complete && depth <= 1000 {
+		// moderate nesting is ordinary content: it decodes, to a value nested as deep
+		got := 0
+		if shape == 4 {
+			for x := out.R; x != nil; x = x.R {
+				got++
+			}
+		} else {
+			for l := out.L; len(l) == 1; l = l[0].L {
+				got++
+			}
+		}
+		if err != nil {
+			c.Fail("depth:rejected-moderate-nesting:"+proto3(p), "Unmarshal rejects the complete %s nested %d deep over %s: %v", name, depth, p, err)
+		} else if got != depth {
+			c.Fail("depth:wrong-nesting:"+proto3(p), "Unmarshal of the complete %s nested %d deep over %s yields a value nested %d deep", name, depth, p, got)
+		}
 	}
 	c.NontrivialStr("depth", p.String(), name, fmt.Sprint(depth))
 	c.Outcome(fmt.Sprintf("%s typed=%v", proto3(p), typed))
@@ -1037,7 +1067,7 @@ func Spec() *explore.Spec {
 					return fmt.Sprintf("typed-decode:depth=%d", ladderDepths[ch[2]])
 				}
 				return "typed-decode"
-			}, Doc: "the same ladder for declared recursive struct / list-of-struct fields, which the decoder follows recursively (rungs above 100,000 in the thorough tier only)"},
+			}, Doc: "the same ladder for declared recursive struct / list-of-struct fields, which the decoder follows recursively, cut off and complete (complete and nested <= 1000: decodes to a value nested as deep; rungs above 100,000 in the thorough tier only)"},
 			{Name: "container-mismatch", ShardDepth: 3, Body: containerMismatch, Doc: "a list / map (key or value) / set / list of lists whose item types differ from the declared ones (3 item kinds, 1..1025 items) between two good fields x 3 protocols: non-strict decoding consumes it and leaves the other fields intact, strict decoding reports TypeMismatch"},
 			{Name: "mismatch-alloc", ShardDepth: 2, Body: mismatchAlloc, Doc: "10..60000 map headers with mismatching key/value types, each announcing 1024 entries, inside a list: error, allocation within the bound"},
 			{Name: "union", ShardDepth: 2, Body: unionFamily, Doc: "a struct with a `thrift:\",union\"` field: each member (or none) x an unknown field of every thrift type, or a declared field with another wire type (non-strict), placed before / after / around the member: the member and the union interface keep their values"},
